@@ -23,7 +23,9 @@ LEVEL = "exploration"
 REQUIRED_CLASSES = ["value-ok", "tiling-ok", "storage-ok"]
 RULE = ("(A) value mapping: input dtype {u8,i8,i16,u16,i32,u32,f32,f64} x "
         "header scaling {none,(2,0),(0.5,1),(1,-3),(0.25,0.5)} x "
-        "ignore_scaling x {no min/max, 3 dyadic min/max pairs per target} x "
+        "ignore_scaling x {no min/max, 3 dyadic min/max pairs per target, a "
+        "pair as wide as the output range with a non-zero minimum, "
+        "input_max alone} x "
         "target dtype5 x {full, mmap} on a 12-voxel volume holding type "
         "limits, ties and out-of-range values; (B) tiling: shapes {1,2,3,5}^3 "
         "+ (7,1,2),(9,4,3) x chunk sizes {1^3,2^3,4^3,8^3,(2,4,1),(3,2,2)} x "
@@ -56,11 +58,19 @@ SCALINGS = [None, (2.0, 0.0), (0.5, 1.0), (1.0, -3.0), (0.25, 0.5)]
 
 
 def minmax_choices(out):
+    """None, or (input_min, input_max); input_min None = option not given
+    (documented default 0). The last-but-one pair has exactly the width of
+    the output range (rescaling slope 1) with a non-zero minimum."""
     if out == "float32":
-        return [None, (0.0, 256.0), (-0.5, 0.0), (100.0, 164.0)]
+        return [None, (0.0, 256.0), (-0.5, 0.0), (100.0, 164.0),
+                (1.0, 2.0), (None, 256.0)]
     hi = ex.INT_RANGE[out][1]
-    return [None, (0.0, float(hi)), (0.0, float(2 * hi)),
-            (3.0, 3.0 + hi / 2.0)]
+    out_list = [None, (0.0, float(hi)), (0.0, float(2 * hi)),
+                (3.0, 3.0 + hi / 2.0)]
+    if out != "uint64":
+        out_list.append((100.0, 100.0 + hi))
+    out_list.append((None, float(2 * hi)))
+    return out_list
 
 
 def value_alphabet(dtype):
@@ -149,7 +159,8 @@ def expected(case, exact):
     for v in it:
         val = ex.to_fraction(v.item()) * slope + inter
         if mm is not None:
-            imin, imax = Fraction(mm[0]), Fraction(mm[1])
+            imin = Fraction(0 if mm[0] is None else mm[0])
+            imax = Fraction(mm[1])
             val = omin + (val - imin) * (omax - omin) / (imax - imin)
         res[it.multi_index] = ex.convert(val, out)
     return res
